@@ -71,6 +71,37 @@ theorem k_transformPoints_eq (ops : NumOps α) (H : FieldLike ops) (p : PT α) (
   rw [hl]
   rfl
 
+when_kernel Gzx.Gen.K19.transformPointsXY in
+/-- `TransformPointsXY(xValues, yValues)` = the model's `PT.transformPointsXY`: element `i` of both slices for
+    `i < len(xValues)`, surplus `yValues` untouched, and an index panic exactly when `yValues` is the shorter slice -/
+theorem k_transformPointsXY_eq (ops : NumOps α) (H : FieldLike ops) (p : PT α) (xs ys : List α) :
+    match p.transformPointsXY xs ys with
+    | .ok r => Gen.K19.transformPointsXY ops p.a11 p.a21 p.a31 p.a12 p.a22 p.a32 p.a13 p.a23 p.a33 xs ys = .ok r
+    | .error _ => Gen.K19.transformPointsXY ops p.a11 p.a21 p.a31 p.a12 p.a22 p.a32 p.a13 p.a23 p.a33 xs ys = .error oob := by
+  have hl := loop_zip (fun x y => p.apply x y)
+    (Gen.K19.transformPointsXY_body1 ops p.a11 p.a21 p.a31 p.a12 p.a22 p.a32 p.a13 p.a23 p.a33)
+    (fun dx dy x y xs ys hlen => by
+      simp only [Gen.K19.transformPointsXY_body1]
+      rw [idxA_at dx x xs _ rfl, tryC_ok, idxA_at dy y ys _ (by rw [hlen]), tryC_ok,
+        setIdxA_at dx x _ xs _ rfl, tryC_ok, setIdxA_at dy y _ ys _ (by rw [hlen]), tryC_ok]
+      simp only [PT.apply, PT.denom, H.add, H.mul, H.div])
+    (fun dx dy x xs hlen => by
+      simp only [Gen.K19.transformPointsXY_body1]
+      rw [idxA_at dx x xs _ rfl, tryC_ok, idxA_ge dy _ (by rw [hlen]; omega), tryC_error])
+    xs ys [] [] rfl
+  simp only [List.nil_append, List.length_nil] at hl
+  rw [show ((0 : Nat) : Int) = 0 from rfl] at hl
+  have ht : tripUp 0 ((xs.length : Nat) : Int) 1 = xs.length := by
+    unfold tripUp
+    rw [show ((xs.length : Nat) : Int) - 0 + (1 - 1) = ((xs.length : Nat) : Int) by omega, Int.tdiv_one]
+    omega
+  unfold PT.transformPointsXY
+  rw [transformXYLoop_eq]
+  simp only [Gen.K19.transformPointsXY, lenA, ht, hl]
+  by_cases hle : xs.length ≤ ys.length
+  · simp only [hle, if_true]; rfl
+  · simp only [hle, if_false]; rfl
+
 /-- non-vacuity: exact rationals are `FieldLike` -/
 example : FieldLike ratOps := ratOps_fieldLike
 
